@@ -13,7 +13,8 @@ import tempfile
 import h5py
 import numpy as np
 
-from ..util import A, L, Result, sig6, bits_equal, rel_diff
+from ..util import A, L, Result, sig6, bits_equal, rel_diff, is_harness_bug
+from ..sim import HarnessError
 from .common import SimRec, gen_simplex, trim
 
 ID = "C18"
@@ -90,12 +91,16 @@ def _rand_floor(rng, rs, c, d, scale2):
 
 def _gen_chain(rng, is_machine):
     chain = []
-    for _ in range(rng.randint(1, 4)):
+    # (a tail of long chains: ten and more save -> load generations)
+    for _ in range(rng.randint(1, 4) if rng.random() < 0.93 else rng.randint(8, 45)):
         step = {"save_by": rng.choice(["path", "file"]),
                 "reload": rng.choice(["from_path", "from_file", "load_same", "load_other_shape",
                                       "load_rollback"]),
                 "drift": rng.choice([0.0, 1e-9, 1e-7, 1e-6, 1e-3]),
                 "load_by": rng.choice(["path", "file"])}
+        if rng.random() < 0.15:
+            # a service loads many other objects (other clients' models) between two generations
+            step["others"] = rng.choice([1, 2, 3, 5, 9, 17, 20])
         if rng.random() < 0.25:
             # several objects in one file (a UBM at the root, clients in groups): the object is
             # written into, and read from, a sub-group of an open file
@@ -401,6 +406,43 @@ def _save_raw(obj, path, by):
             obj.save(f)
 
 
+def _load_others(kind, case, store, rec, n, held, prior=None):
+    """Save and load n OTHER objects of the same shape but other content; they stay alive."""
+    from bob.learn.em import GMMMachine, GMMStats
+    c, d = case["c"], case["d"]
+    for j in range(n):
+        k = len(held) + 1
+        path = store.slot()
+        if kind == "stats":
+            o = GMMStats(c, d)
+            o.n = o.n + 0.5 * k
+            o.sum_px = o.sum_px + 0.25 * k
+            o.sum_pxx = o.sum_pxx + 2.0 * k
+            o.t = k
+            o.save(path)
+            new = GMMStats.from_hdf5(path)
+        else:
+            o = GMMMachine(c)
+            o.means = np.full((c, d), 0.125 * k)
+            o.variances = np.full((c, d), 1.0 + 0.5 * k)
+            w = np.arange(1, c + 1, dtype=float) + k
+            o.weights = w / w.sum()
+            o.save(path)
+            new = GMMMachine.from_hdf5(path)
+        import gc
+        gc.collect()
+        held.append((new, _state_digest(new)))
+    rec.probe("other_objects_loaded_in_between", n > 0)
+    rec.probe("more_than_16_objects_alive", len(held) > 16)
+
+
+def _held_changed(held):
+    for idx, (o, dg) in enumerate(held):
+        if _state_digest(o) != dg:
+            return idx
+    return None
+
+
 def _refused_load(how, live, case, store, rec):
     from bob.learn.em import GMMMachine, GMMStats
     path = store.slot()
@@ -422,7 +464,9 @@ def _refused_load(how, live, case, store, rec):
         else:
             GMMMachine.from_hdf5(os.path.join(store.dir, "does-not-exist.hdf5"))
         rec.probe("invalid_load_accepted_" + how)
-    except Exception:
+    except Exception as _e:
+        if is_harness_bug(_e):
+            raise HarnessError(f"harness bug: {_e!r}")
         rec.probe("refused_load_" + how)
         rec.faults["F10_rejected_call"] = rec.faults.get("F10_rejected_call", 0) + 1
     finally:
@@ -488,6 +532,7 @@ def _run_machine(case, rec, store):
     rec.probe("nondefault_threshold", case["thr"] not in (None, 1e-5))
     first_file = None
     orig = live
+    held = []
     for i, st in enumerate(case["chain"]):
         path = store.slot()
         try:
@@ -503,6 +548,8 @@ def _run_machine(case, rec, store):
         except _SaveModified:
             return Result.violation("save-modifies-the-object", {"step": i})
         except Exception as e:
+            if is_harness_bug(e):
+                raise HarnessError(f"harness bug: {e!r}")
             return Result.violation("save-raises", {"step": i, "exception": repr(e)[:300],
                                                     "settings": _settings(live)})
         _fault(rec, "F5_save_" + st["save_by"])
@@ -546,12 +593,19 @@ def _run_machine(case, rec, store):
                 with _Handle(path, st["load_by"], where) as h:
                     new.load(h)
         except Exception as e:
+            if is_harness_bug(e):
+                raise HarnessError(f"harness bug: {e!r}")
             return Result.violation("load-raises", {"step": i, "how": st["reload"],
                                                     "exception": repr(e)[:300]})
         _fault(rec, "F5_restart_" + st["reload"])
         v = _compare_machines(orig, new, probe, X, i, st)
         if v is not None:
             return v
+        held.append((new, _state_digest(new)))
+        _load_others("machine", case, store, rec, st.get("others", 0), held)
+        bad = _held_changed(held)
+        if bad is not None:
+            return Result.violation("loaded-object-changed-later", {"step": i, "object": bad})
         if first_file is None:
             first_file = (path, where)
         else:
@@ -566,6 +620,8 @@ def _run_machine(case, rec, store):
             try:
                 leg = GMMMachine.from_hdf5(lp, ubm=prior)
             except Exception as e:
+                if is_harness_bug(e):
+                    raise HarnessError(f"harness bug: {e!r}")
                 return Result.violation("legacy-load-raises", {"exception": repr(e)[:300]})
             _fault(rec, "F5_restart_legacy")
             for name in ("weights", "means", "variances"):
@@ -599,6 +655,8 @@ def _compare_machines(o, r, probe, X, i, st):
     try:
         eq = bool(o == r) and bool(r == o)
     except Exception as e:
+        if is_harness_bug(e):
+            raise HarnessError(f"harness bug: {e!r}")
         return Result.violation("equality-raises", {"step": i, "exception": repr(e)[:200]})
     if not eq:
         return Result.violation("not-equal-under-eq", {"step": i, "how": st["reload"]})
@@ -618,11 +676,15 @@ def _compare_machines(o, r, probe, X, i, st):
         return None
     try:
         o2.fit(X.copy())
-    except Exception:
+    except Exception as _e:
+        if is_harness_bug(_e):
+            raise HarnessError(f"harness bug: {_e!r}")
         return None
     try:
         r2.fit(X.copy())
     except Exception as e:
+        if is_harness_bug(e):
+            raise HarnessError(f"harness bug: {e!r}")
         return Result.violation("continued-training-differs",
                                 {"step": i, "exception": repr(e)[:300]})
     for name in ("weights", "means", "variances"):
@@ -654,6 +716,7 @@ def _run_stats(case, rec, store):
         live.n, live.sum_px, live.sum_pxx = A(v["n"]), A(v["sum_px"]), A(v["sum_pxx"])
     orig = live
     first_file = None
+    held = []
     for i, st in enumerate(case["chain"]):
         path = store.slot()
         try:
@@ -669,6 +732,8 @@ def _run_stats(case, rec, store):
         except _SaveModified:
             return Result.violation("save-modifies-the-object", {"step": i})
         except Exception as e:
+            if is_harness_bug(e):
+                raise HarnessError(f"harness bug: {e!r}")
             return Result.violation("save-raises", {"step": i, "exception": repr(e)[:300]})
         _fault(rec, "F5_save_" + st["save_by"])
         try:
@@ -691,6 +756,8 @@ def _run_stats(case, rec, store):
                 with _Handle(path, st["load_by"], where) as h:
                     new.load(h)
         except Exception as e:
+            if is_harness_bug(e):
+                raise HarnessError(f"harness bug: {e!r}")
             return Result.violation("load-raises", {"step": i, "how": st["reload"],
                                                     "exception": repr(e)[:300]})
         _fault(rec, "F5_restart_" + st["reload"])
@@ -709,6 +776,8 @@ def _run_stats(case, rec, store):
         try:
             eq = bool(orig == new) and bool(new == orig)
         except Exception as e:
+            if is_harness_bug(e):
+                raise HarnessError(f"harness bug: {e!r}")
             return Result.violation("equality-raises", {"step": i, "exception": repr(e)[:200]})
         if not eq:
             return Result.violation("not-equal-under-eq", {"step": i, "how": st["reload"]})
@@ -718,6 +787,8 @@ def _run_stats(case, rec, store):
             if _norm(s2.t) != 2 * _norm(orig.t):
                 return Result.violation("reloaded-statistics-unusable", {"step": i})
         except Exception as e:
+            if is_harness_bug(e):
+                raise HarnessError(f"harness bug: {e!r}")
             return Result.violation("reloaded-statistics-unusable",
                                     {"step": i, "exception": repr(e)[:200]})
         if first_file is None:
@@ -733,6 +804,8 @@ def _run_stats(case, rec, store):
             try:
                 leg = GMMStats.from_hdf5(lp)
             except Exception as e:
+                if is_harness_bug(e):
+                    raise HarnessError(f"harness bug: {e!r}")
                 return Result.violation("legacy-load-raises", {"exception": repr(e)[:300]})
             _fault(rec, "F5_restart_legacy")
             for name, a, b in zip(("n", "sum_px", "sum_pxx"), _stats_fields(leg), _stats_fields(new)):
@@ -740,6 +813,11 @@ def _run_stats(case, rec, store):
                     return Result.violation("legacy-vs-current", {"field": name})
             if _norm(leg.t) != _norm(new.t) or float(leg.log_likelihood) != float(new.log_likelihood):
                 return Result.violation("legacy-vs-current", {"field": "t/log_likelihood"})
+        held.append((new, _state_digest(new)))
+        _load_others("stats", case, store, rec, st.get("others", 0), held)
+        bad = _held_changed(held)
+        if bad is not None:
+            return Result.violation("loaded-object-changed-later", {"step": i, "object": bad})
         live = new
     return Result.ok()
 
